@@ -24,6 +24,8 @@ instance attributes that differ from those of a new instance.  The findings (wha
   abbr.abbrs                    dict, persists: an abbreviation of document 1 is applied in document 2
   md.toc / md.toc_tokens        overwritten by every non-blank conversion (side outputs; a blank document returns
                                 before any stage runs and leaves them as they were)
+  md.Meta (meta extension)      overwritten by every non-blank conversion (MetaPreprocessor.run), {} after reset(); a blank
+                                document leaves it
   toc used ids                  collected per run from the tree (no carried state)
   fenced_code                   `codehilite_conf`, `use_attr_list`, `checked_for_deps` set on the first run from the
                                 registered extensions (constant afterwards)
@@ -48,6 +50,8 @@ def snapshot(md):
             s['abbr.abbrs'] = dict(e.abbrs)
         elif n == 'TocExtension':
             s['toc'] = md.toc; s['toc_tokens'] = md.toc_tokens
+        elif n == 'MetaExtension':
+            s['Meta'] = dict(md.Meta)
     return s
 
 
@@ -75,6 +79,7 @@ EXPERIMENTS = [
     ('abbr: doc 1 abbreviation applied in doc 2', ['abbr'], ['*[HTML]: Hyper Text\n\nHTML', 'HTML again', "*[HTML]: ''\n\nHTML gone", 'HTML']),
     ('toc: ids per run, md.toc overwritten', ['toc'], ['# A\n\n[TOC]', '# A\n\n# B\n\n[TOC]', ' ']),
     ('footnotes+abbr+refs in one', ['footnotes', 'abbr'], ['[r]: /u\n*[X]: T\n[^n]: N X [l][r]\n\nX[^n]', 'X [l][r] [^n]']),
+    ('meta: Meta overwritten per conversion, kept by a blank document', ['meta'], ['Title: A\n\nbody', 'plain', 'K: v\n\nx', ' ']),
     ('error then convert', ['footnotes'], ['&#1114112; [a]: /u\n\n[a]: /v', '[q][a]']),
 ]
 
